@@ -1764,8 +1764,9 @@ def stream_number_contractions(ctx):
     """Contractions ALL of whose operands are Numbers — drawn from {unit of ⊗, zero of ⊕, ordinary}, all-unit
     tuples included — with reduced Variables that no operand mentions (the pending reduction contributes the
     multiplicity |i| / log|i|).  Built directly and reached by substituting the values into free real parameters;
-    eager, normalize, lazy + apply_optimizer.  (Number operands only: funsor evaluates these correctly; a Tensor
-    operand next to an absent reduced variable is the region of KF-contraction-absent-var.)"""
+    eager, normalize, lazy + apply_optimizer.  (Number operands only: funsor evaluates these correctly as long as at
+    most two operands survive unit removal; a Tensor operand next to an absent reduced variable, or three or more
+    non-unit Numbers reaching the optimizer's finitary rule, is the region of KF-contraction-absent-var.)"""
     rng = ctx.rng
     reqs, meta = [], []
     n = 60 if ctx.tier == "quick" else 400
@@ -1829,6 +1830,12 @@ def stream_number_contractions(ctx):
                 ok = (got == want) or (not math.isinf(want) and abs(got - want) <= 1e-9 * max(1.0, abs(want)))
             else:
                 got = str(r)[:80]
+            if not ok and route.endswith("optimizer") and sum(1 for v in vals if v != one) >= 3:
+                # >= 3 operands survive unit removal, so the term reaches optimize_contract_finitary_funsor with a
+                # reduced variable no operand mentions: the call site and input shape of KF-contraction-absent-var
+                # (multiplicity dropped, e.g. sum_{i<4,j<3} 3*2*3 = 18 instead of 216); reported by the dedicated stream
+                ctx.count("numcontr:known-region:KF-contraction-absent-var")
+                continue
             if not ok:
                 py = (PY_HEADER + f"terms = [Number(v) for v in {vals!r}]\n".replace("inf", "math.inf")
                       + "rv = frozenset([" + ", ".join(f"Variable({nm!r}, Bint[{sz}])" for nm, sz in vs) + "])\n"
